@@ -37,18 +37,20 @@ end
 
 theorem readVal_eq_decode (ty : Ty) (sc : Scale) (pre x post : Bytes) :
     readVal ty sc (pre ++ x ++ post) pre.length x.length = decodeVal ty sc x := by
-  unfold readVal decodeVal
-  rw [slice_mid]
+  simp only [readVal, slice_mid]
 
 /-- single attribute: offset advances by the field width, environment as specified -/
 theorem wSingle_spec (c : WCtx) (hp : c.hasPayload = true) (idx : List Nat) (n l sz : Nat) (sc : Scale)
     (pre b post : Bytes) (hb : b.length = sz) (env env' : Env)
-    (hs : (match decodeVal (.t l sz) sc b with | .error e => .error e | .ok v => storeVal c idx n env v) = .ok env') :
+    (hs : (match decodeVal (.t l sz) sc b with
+           | Except.error e => Except.error e
+           | Except.ok v => storeVal c idx n env v) = Except.ok env') :
     wSingle c idx n (.t l sz) sc ⟨pre.length, pre ++ b ++ post, env⟩
       = .ok ⟨pre.length + b.length, pre ++ b ++ post, env'⟩ := by
+  subst hb
   unfold wSingle
   simp only [fieldSize, attsiz, Int.toNat_natCast, hp, if_true]
-  rw [← hb, readVal_eq_decode]
+  rw [readVal_eq_decode]
   split at hs
   · cases hs
   · rename_i v hv
@@ -60,9 +62,10 @@ theorem wBits_spec (c : WCtx) (hp : c.hasPayload = true) (idx : List Nat) (l sz 
     (hs : flagsParse c idx (fromLE b) flags 0 env = .ok env') :
     wBits c idx (.t l sz) flags ⟨pre.length, pre ++ b ++ post, env⟩
       = .ok ⟨pre.length + b.length, pre ++ b ++ post, env'⟩ := by
+  subst hb
   unfold wBits
   simp only [attsiz, Int.toNat_natCast, hp, if_true]
-  rw [← hb, slice_mid, hs]
+  rw [slice_mid, hs]
 
 theorem repeatN_congr (body body' : Nat → WState → R WState) (h : ∀ i s, body i s = body' i s) (k i : Nat) (st : WState) :
     repeatN body k i st = repeatN body' k i st := by
@@ -149,34 +152,36 @@ theorem wItem_spec (c : WCtx) (hp : c.hasPayload = true) (hcv : c.cfgval = false
     · simp only [hbf] at hs ⊢
       exact wSingle_spec c hp idx n l sz .one pre b post hsh env env' hs
   | .group n cnt items, .node reps =>
-    simp only [shapeItem, Bool.and_eq_true] at hsh
     simp only [specItem] at hs
     simp only [wItem, hcv, Bool.false_eq_true, if_false, encItem]
     -- the walker's repeat count is the number of repetitions in the tree
     have hcount : groupCount c cnt items ⟨pre.length, pre ++ encReps reps ++ post, env⟩ = .ok reps.length ∧
-        specReps c idx items reps 1 env = .ok env' := by
+        specReps c idx items reps 1 env = .ok env' ∧ shapeReps items reps post = true := by
       cases cnt with
       | fixed k =>
+        simp only [shapeItem, Bool.true_and] at hsh
         simp only at hs
         split at hs
-        · rename_i hk; exact ⟨by simp [groupCount, hk], hs⟩
+        · rename_i hk; exact ⟨by simp [groupCount, hk], hs, hsh⟩
         · cases hs
       | named a =>
+        simp only [shapeItem, Bool.true_and] at hsh
         simp only at hs
         split at hs
         · cases hs
         · rename_i k hk
           split at hs
-          · rename_i hkk; exact ⟨by simp [groupCount, hk, hkk], hs⟩
+          · rename_i hkk; exact ⟨by simp [groupCount, hk, hkk], hs, hsh⟩
           · cases hs
       | var =>
+        simp only [shapeItem, Bool.and_eq_true] at hsh
         simp only at hs
-        refine ⟨?_, hs⟩
         obtain ⟨⟨hpost, hg⟩, hreps⟩ := hsh
+        refine ⟨?_, hs, hreps⟩
         have hpost' : post = [] := by simpa using hpost
         subst hpost'
         cases hps : plainSize items with
-        | none => rw [hps] at hg; cases hg
+        | none => rw [hps] at hg; simp at hg
         | some g =>
           rw [hps] at hg
           have hgpos : 0 < g := by simpa using hg
@@ -195,7 +200,7 @@ theorem wItem_spec (c : WCtx) (hp : c.hasPayload = true) (hcv : c.cfgval = false
           rw [h2]; simp
     rw [hcount.1]
     simp only
-    exact wReps_spec c hp hcv idx items reps 1 pre post env env' hsh.2 hcount.2
+    exact wReps_spec c hp hcv idx items reps 1 pre post env env' hcount.2.2 hcount.2.1
   | .attr _ .ch _, _ => simp [shapeItem] at hsh
   | .attr _ (.malformed _) _, _ => simp [shapeItem] at hsh
   | .attr _ (.t _ _) _, .node _ => simp [shapeItem] at hsh
